@@ -163,7 +163,12 @@ class Decomposer:
                 "solver": "lobpcg",
                 "random_state": self.random_state,
             }
-            U, s, VT = self._svd(X, dims, complex_svd, solver_kwargs)
+            # The convergence criterion of lobpcg is absolute, so solve for the
+            # data normalised to unit magnitude and restore the scale afterwards
+            scale = abs(X).max()
+            scale = scale.where(scale > 0, 1.0)
+            U, s, VT = self._svd(X / scale, dims, complex_svd, solver_kwargs)
+            s = s * scale
             idx_sort = np.argsort(s)[::-1]
             U = U[:, idx_sort]
             s = s[idx_sort]
